@@ -71,8 +71,8 @@ class MarginalRayHeightSolve(BaseSolve):
         ya, ua = self.optic.paraxial.marginal_ray()
         # ua[k] is the slope after surface k; the ray reaches surface k with
         # the slope it has after surface k-1
-        offset = (self.height - ya[self.surface_idx]) / \
-            ua[self.surface_idx - 1]
+        offset = ((self.height - ya[self.surface_idx]) /
+                  ua[self.surface_idx - 1]).item()
 
         # shift current surface and all subsequent surfaces
         for surface in self.optic.surface_group.surfaces[self.surface_idx:]:
